@@ -14,6 +14,12 @@
       checked closed and good in the kernel (`C08_two_threads_*`), hence every schedule of two
       threads is good (`C08_two_threads_all_schedules`).  Without the lock the same programs
       reach a bad state (`C08_lock_needed_witness`).
+  (3) Bystanders: a thread whose own probe is on ANOTHER function and that calls the shared function while
+      another thread activates / deactivates a probe on it.  Its call reads the code object and, if that is a
+      variant, the variant's prologue looks the function's variable table up (`fits_selector`); the generated
+      bystander program says whether that lookup can raise.  `C08_bystander_*`: under every schedule the
+      bystander's call never raises (one probing thread and one bystander in the kernel; two probing threads and
+      two bystanders by the compiled model in the check, a test).
   PARTIAL: the atomicity unit (one source line under CPython's GIL), per-thread ContextVar
   values and atomic dict/Counter operations are assumptions; three threads at line level are
   explored by the compiled model in the thorough tier (a test), not in the kernel.
@@ -105,6 +111,30 @@ theorem C08_two_threads_all_schedules (sched : List Nat) :
       (exec_mem_of_closed _ (C08_two_threads_same_variable hd).1 sched _ (init_mem_reachable _ 199))
   · exact List.all_eq_true.mp (C08_two_threads_overlapping hd).2 _
       (exec_mem_of_closed _ (C08_two_threads_overlapping hd).1 sched _ (init_mem_reachable _ 199))
+
+/-! bystanders: a thread with a probe elsewhere calls the function in the middle of the others' activations -/
+def bystander : List (List Step) := bystanderLines.map (·.2.2)
+
+def s3 (owns : List (List Nat)) : State := initStateB tool untool bystander owns
+
+theorem C08_bystander_one_prober : discOK = true →
+    closed (reachable (s3 [[0], []]) 200) = true ∧ (reachable (s3 [[0], []]) 200).all good = true := by
+  decide +kernel
+
+/-- EVERY schedule of a probing thread and bystanders: no call raises, every call of the prober is covered -/
+theorem C08_bystander_all_schedules (sched : List Nat) : good (exec (s3 [[0], []]) sched) = true := by
+  have hd : discOK = true := by
+    have := C08_generated_disciplined
+    simp [discOK, this.1, this.2]
+  exact List.all_eq_true.mp (C08_bystander_one_prober hd).2 _
+    (exec_mem_of_closed _ (C08_bystander_one_prober hd).1 sched _ (init_mem_reachable _ 199))
+
+/-- the model can tell: with a lookup that raises when the table is absent, a bad schedule exists (the prober
+    is preempted between installing the code and the table, or removes the table under a running call) -/
+def strictBystander : List (List Step) := [[Step.callFetch], [Step.callEnter]]
+
+theorem C08_bystander_strict_lookup_witness :
+    (searchBad (initStateB tool untool strictBystander [[0], []]) 200).isSome = true := by decide +kernel
 
 /-! the lock is what makes it true: the same programs without lock operations -/
 def strip (l : List (List Step)) : List (List Step) :=
